@@ -287,3 +287,75 @@ def c07(ck):
             ck.mismatch({"kind": "dispatch", "path": m["path"], "fields": m["fields"], "case": m["case"],
                          "obs": m["obs"], "obs_cyc": m["obs_cyc"], "obs_wr": m["obs_wr"]},
                         "dispatch-%s-%s-sp%d" % (m["path"], "-".join(m["fields"]), m["case"]["pre"]["sp"]))
+
+
+# ------------------------------------------------------------ machine traces
+def record_and_validate_machine(ck, scenarios, tag, jit=False, shards=8, cold=False, validate=True):
+    """Run scenarios on the real core (gbv machine), validate the traces against Machine.tla.
+    Returns the list of trace files."""
+    import gbprog
+    from concurrent.futures import ThreadPoolExecutor
+    shards = max(1, min(shards, len(scenarios)))
+    exe = vlib.build_harness(jit)
+    parts = [scenarios[i::shards] for i in range(shards)]
+    files = []
+    def rec(i):
+        sp = os.path.join(rundir(), "%s_sc%d.ndjson" % (tag, i))
+        tp = os.path.join(rundir(), "%s_tr%d.ndjson" % (tag, i))
+        gbprog.write_scenarios(sp, parts[i])
+        args = [exe, "machine", "--scenarios", sp, "--out", tp] + (["--cold-cache"] if cold else [])
+        rc, o, e = vlib.sh(args, cwd=vlib.VERIF, env={"VERIF_SEED": vlib.seed()}, timeout=3600)
+        if rc != 0:
+            raise ToolError("machine recorder failed (rc=%s): %s" % (rc, e[-1500:]))
+        return tp
+    with ThreadPoolExecutor(max_workers=shards) as ex:
+        files = list(ex.map(rec, range(shards)))
+    nsteps = 0
+    for i, tp in enumerate(files):
+        with open(tp) as f:
+            for line in f:
+                if '"ev":"step"' in line:
+                    nsteps += 1
+                elif '"ev":"panic"' in line:
+                    r = json.loads(line)
+                    ck.mismatch({"kind": "panic", "tag": tag, "jit": jit, "record": r, "trace": tp}, "panic-" + tag)
+    ck.count(nsteps)
+    ck.nontrivial_count += nsteps
+    if validate:
+        jobs = [dict(module="Trace_Machine", env={"TRACE": tp}, dfs=True, check=False, timeout=3000, xmx="3g") for tp in files]
+        rs = vlib.tlc_parallel(jobs)
+        for tp, r in zip(files, rs):
+            ck.add_tlc("Trace_Machine", r, mc=True)
+            if r.printed("TRACE_OK"):
+                continue
+            rej = r.printed("TRACE_REJECTED")
+            if not rej:
+                raise ToolError("Trace_Machine gave no verdict on %s:\n%s" % (tp, "\n".join(r.text.splitlines()[-30:])))
+            keep = os.path.join(vlib.REPLAY, ck.prop)
+            os.makedirs(keep, exist_ok=True)
+            import shutil
+            kept = os.path.join(keep, os.path.basename(tp))
+            shutil.copy(tp, kept)
+            ck.mismatch({"kind": "trace-rejected", "tag": tag, "jit": jit, "line": rej[0][:3000], "trace": kept}, "trace-" + tag)
+        ck.traces += len(scenarios)
+    return files
+
+
+# ------------------------------------------------------------------- C08
+@prop("C08")
+def c08(ck):
+    import gbprog
+    thorough = ck.tier == "thorough"
+    rng = random.Random(vlib.seed())
+    ck.rule = ("every instruction sequence of length <= L over {EI, DI, RETI, HALT, STOP, NOP, REQ, WIE} (L=4 quick, 5 thorough) "
+               "materialised as a real program with handlers at the vectors, plus random longer sequences, stepped with "
+               "Core::update() in the build without jit; every step validated against Machine.tla (StepInstr / HaltTick) with "
+               "the step-level C08 clauses evaluated; each emulator step is a case")
+    mc = tlc("MC_IntState", cfg="MC_IntState_deep" if thorough else "MC_IntState", workers=8, coverage=True, timeout=3000)
+    ck.add_tlc("MC_IntState", mc)
+    ck.require_coverage(mc, ["Instr", "Tick"])
+    scs = gbprog.c08_all(5 if thorough else 4, rng) + gbprog.c08_random(6000 if thorough else 400, 24, rng)
+    ck.extra["sequences"] = len(scs)
+    ck.sample({k: scs[777][k] for k in ("id", "rom", "cpu", "ime", "init_writes", "steps")})
+    files = record_and_validate_machine(ck, scs, "c08", jit=False, shards=12)
+    ck.sample({"trace_excerpt": head_lines(files[0], 4)[1:]})
